@@ -387,6 +387,9 @@ pub fn property() -> Property {
     Property {
         id: "C10",
         level: "exploration",
-        parts: vec![Box::new(PropPart(C10))],
+        parts: vec![
+            Box::new(PropPart(C10)),
+            Box::new(PropPart(crate::props::agent_parts::C10Agent)),
+        ],
     }
 }
